@@ -6424,3 +6424,7 @@ class Indexing(Adapter):
 #===============================================================================
 # end of file
 #===============================================================================
+
+if os.environ.get("CONSTRUCT_VERIF_TRACE") == "1":
+    from construct.lib import veriftrace as _veriftrace
+    _veriftrace.install(Construct)
